@@ -42,6 +42,25 @@ def fixture_info():
     return out
 
 
+def fixture_snaps():
+    """name -> {canonical client number: (snapshot version, timestamp, versions since) or None} as the PINNED release
+    itself reported its stored records when the fixture was written (expected.trace)"""
+    import os
+    from .common import VERIF
+    root = os.path.join(VERIF, "fixtures", "c19")
+    out = {}
+    for name in fixture_info():
+        snaps = {}
+        lines = open(os.path.join(root, name, "expected.trace")).read().split("\n")
+        for i, l in enumerate(lines):
+            if l.startswith("OP dump ") and i + 1 < len(lines) and lines[i + 1].startswith("R "):
+                d = Dump(lines[i + 1][2:])
+                if d.ok and not d.absent:
+                    snaps[l.split()[2]] = d.snap
+        out[name] = snaps
+    return out
+
+
 def fixture_cases(prefix, rng, n, tail):
     """n cases that start from a copy of a pinned-release data directory; tail(name, client, nacc, has_snapshot, other) -> ops"""
     fx = fixture_info()
@@ -855,6 +874,11 @@ class C12(L1Prop):
             ops += ["http@0 POST as hyph=latest:1 hyph=1 snapshot b:8", "backdate 1 90000", "dump 1", "http@0 POST av hyph=latest:1 hyph=1 history b:4", "dump 1",
                     "backdate 1 180000", "dump 1", "http@0 POST av hyph=latest:1 hyph=1 history b:5", "dump 1", "kill"]
             out.append(Case(f"c12-bin-{j}", ops, {"cfg": [d, v], "http": True, "only": "sqlite"}, mode="bin")); k += 1
+        # a data directory written by the pinned release: the age and the counter of a snapshot IT stored are
+        # what the urgency of the next accepted versions is computed from
+        def tail(name, c, nacc, snap, o):
+            return [f"av {c} latest:{c} b:1,1", f"dump {c}", f"av {c} latest:{c} b:1,2", f"av {o} latest:{o} b:1,3", "reopen", f"av {c} latest:{c} b:1,4"]
+        out += fixture_cases("c12", rng, sizes(tier, 7, 28), tail)
         # counters produced by real histories, default and small targets
         nh = sizes(tier, 90, 400)
         for j in range(nh):
@@ -897,10 +921,26 @@ class C12(L1Prop):
         count = {}
         if case.meta.get("http"):
             trace = http_as_lib(trace)
+        fx = fixture_snaps().get(case.meta.get("fixture"), None) if case.meta.get("fixture") else None
+        since_fixture, loaded = {}, False
         for i, (o, ri, rm) in enumerate(trace):
             op = Op(o)
             if op.kind == "cfg":
                 d, v = op.days, op.versions
+            if o.startswith("mark fixture-loaded"):
+                loaded = True
+            if fx is not None and loaded and op.kind in ("as", "setcounter", "backdate"):
+                fx = None
+            if fx is not None and loaded and op.kind == "av" and resp_kind(ri) == "added" and str(op.c) in fx:
+                # the record the PINNED release reported for this client, plus the versions accepted since
+                s0 = fx[str(op.c)]
+                n0 = since_fixture.get(op.c, 0)
+                rec = None if s0 is None else (s0[0], s0[1], s0[2] + n0)
+                want, want2 = spec_urgency(d, v, rec, op.now), spec_urgency(d, v, rec, op.now + 3)
+                if added_urgency(ri) not in (want, want2):
+                    fails.append(f"op {i}: urgency {added_urgency(ri)}, expected {want}: the pinned release stored snapshot record {s0} for client {op.c} "
+                                 f"(fixture `{case.meta['fixture']}`), {n0} versions were accepted since, targets days={d} versions={v}, now {op.now}")
+                since_fixture[op.c] = n0 + 1
             if op.kind == "av" and i > 0 and trace[i - 1][0].startswith(f"dump {op.c} "):
                 before = Dump(trace[i - 1][1])
                 if resp_kind(ri) == "panic":
@@ -1451,6 +1491,38 @@ class C11(L1Prop):
         # what GetSnapshot returns always come from the same upload
         from .props_http import interleaved_upload_cases
         out += interleaved_upload_cases("c11", rng, sizes(tier, 12, 100))
+        # snapshots whose content looks like something (compressed streams, a leading zero byte, a length prefix …),
+        # accepted, replaced, read back, also after a reopen; large ones of the same kinds too
+        from .props_http import content_streams
+        import gzip as _gz
+        st = content_streams()
+        big = bytes(rng.getrandbits(8) for _ in range(5000))
+        st.update({"gzip-big": _gz.compress(big, mtime=0), "gzip-long-text": _gz.compress(b"task " * 3000, mtime=0), "zero-big": bytes([0, 0]) + big})
+        names = sorted(st)
+        per = 6
+        for k in range(0, len(names), per):
+            ops = ["ensure 1", "av 1 nil b:1"]
+            for nm in names[k:k + per]:
+                ops += ["av 1 latest:1 b:2", f"as 1 latest:1 b:{','.join(str(x) for x in st[nm])}", "gs 1"]
+            ops += ["reopen", "gs 1", "swalk 1"]
+            out.append(Case(f"c11-content-{k // per}", ops))
+        # two snapshot uploads of ONE client in flight together on one worker, for an older and for a newer
+        # version, the older one's body arriving more slowly (and the other way round): whatever the order in
+        # which they are handled, what GetSnapshot returns afterwards is the upload for the newer version
+        for k in range(sizes(tier, 10, 60)):
+            nv = 3 + k % 3
+            ops = ["http POST av hyph=nil hyph=1 history b:1"] + [f"http POST av hyph=latest:1 hyph=1 history b:2,{i}" for i in range(nv)]
+            if k % 4 == 1:
+                ops += ["http POST as hyph=anc:1:2 hyph=1 snapshot b:8,8", "http GET snap - hyph=1 absent e"]
+            slow = "chunks:" + ",".join(str(rng.randint(1, 30)) for _ in range(rng.randint(4, 6)))
+            fast = "chunks:" + ",".join(str(rng.randint(1, 30)) for _ in range(2))
+            older, newer = ("anc:1:1", "latest:1") if k % 3 else ("anc:1:2", "anc:1:1")
+            pair = [f"http POST as hyph={older} hyph=1 snapshot {slow if k % 2 == 0 else fast}", f"http POST as hyph={newer} hyph=1 snapshot {fast if k % 2 == 0 else slow}"]
+            if k % 5 >= 3:
+                pair.reverse()
+            ops += ["ileave " + " || ".join(pair), "http GET snap - hyph=1 absent e", "dump 1",
+                    "http POST av hyph=latest:1 hyph=1 history b:3", "http GET snap - hyph=1 absent e"]
+            out.append(Case(f"c11-pair-{k}", ops, {"http": True}, mode="http"))
         # a storage call fails while GetSnapshot runs: the answer may be an error, never "no snapshot" for a client
         # whose upload was accepted; and an upload whose transaction does not commit is not what GetSnapshot
         # returns afterwards — neither its id nor its bytes
@@ -1499,7 +1571,10 @@ class C11(L1Prop):
                 h, r = HOp(o), HResp(ri)
                 if h.route == "as":
                     if h.valid() and r.status == 200:
-                        cur[h.cid] = (h.seg, h.body())
+                        # (ids are numbered in the order the server issued them: an upload for a version older than
+                        # the one the stored snapshot is for, or for that very version, is declined, whatever else is in flight)
+                        if not (h.cid in cur and cur[h.cid] and cur[h.cid][0].isdigit() and h.seg.isdigit() and int(h.seg) <= int(cur[h.cid][0])):
+                            cur[h.cid] = (h.seg, h.body())
                     elif not h.valid() and r.status == 200:
                         fails.append(f"op {i}: an upload that was not complete / well-formed was answered 200: `{o[:90]}`")
                 if h.route == "snap":
@@ -1688,6 +1763,13 @@ class C13(L1Prop):
             ops, g = rand_prefix(rng, rng.randint(8, 20), nc, False, True, True, obs2)
             ops = [f"subdir {names[k % len(names)]}"] + ops + ["reopen", "dumpall"]
             out.append(Case(f"c13-dir-{k}", ops))
+        # the directory is what a first start that died part-way left behind (every prefix of the start-up steps,
+        # Setup.dead_start): the backend opened on it behaves like any other
+        for k in range(sizes(tier, 7, 28)):
+            nc = rng.choice([1, 2])
+            ops, g = rand_prefix(rng, rng.randint(6, 16), nc, False, True, True, None)
+            ops = [f"deadstart {k % 7}"] + ops + ["dumpall", "reopen", "dumpall"]
+            out.append(Case(f"c13-deadstart-{k}", ops))
         # a chain that starts on a version the server never stored, and an upload for exactly that version
         for k in range(sizes(tier, 10, 60)):
             more = k % 5
